@@ -45,6 +45,7 @@ ASSUMPTIONS = [
 DIMS = [
     "clock_start", "clock_step", "hash_seed", "aged_process", "cold_process", "cwd", "in_location", "out_location",
     "spelling", "enum", "umask", "env", "lookup_via_env", "input_meta", "tpl_location", "machine_history", "py_flags",
+    "out_preexists", "in_creation_order",
 ]  # fmt: skip
 T0 = 1750000000.0
 
@@ -169,7 +170,13 @@ def _perturb(r: Rng, dims: typing.List[str], worker_hash_seed: int) -> dict:
             w[d] = r.choice([["whitespace"], ["config"], ["whitespace", "config"], ["other_lang", "whitespace"], ["same", "config"], ["same_outdir_crlf"], ["same_outdir_crlf", "whitespace"]])
         elif d == "py_flags":
             # how the interpreter was started (debuggers, CI wrappers and packagers add -X options): not an input
-            w[d] = r.choice([["-X", "faulthandler"], ["-X", "dev"], ["-X", "utf8"], ["-B"], ["-X", "pycache_prefix=@SANDBOX@/pyc"], ["-X", "faulthandler", "-X", "tracemalloc=2"], ["-W", "ignore"]])
+            w[d] = r.choice([["-X", "faulthandler"], ["-X", "dev"], ["-X", "utf8"], ["-B"], ["-X", "pycache_prefix=@SANDBOX@/pyc"], ["-X", "faulthandler", "-X", "tracemalloc=2"], ["-W", "ignore"], ["-O"], ["-OO"], ["-q", "-O"], ["-X", "frozen_modules=off"], ["-X", "int_max_str_digits=0"]])
+        elif d == "out_preexists":
+            # the output directory is there already (empty, or holding an unrelated file in a sub-directory of its own)
+            w[d] = r.choice(["empty", "unrelated", "empty-0700"])
+        elif d == "in_creation_order":
+            # the input files were created in another order (other inode numbers, other raw directory order)
+            w[d] = r.choice(["reverse", "shuffled"])
         elif d == "input_meta":
             w[d] = {"mtime": r.choice([0, 946684800, 4102444800]), "mode": r.choice([0o444, 0o644, 0o600])}
         else:
@@ -210,6 +217,31 @@ def _neutral_model(raw_pickle: bytes) -> typing.Optional[bytes]:
         return None
 
 
+def _model_without_caches(raw_pickle: bytes, blank_paths: bool) -> typing.Optional[bytes]:
+    """Re-pickle a _MODEL_ payload with pydsdl's lazily filled MemoizationOperator caches dropped (and, on request, every
+    pathlib path replaced by a constant)."""
+    try:
+
+        class U(pickle.Unpickler):
+            def find_class(self, module: str, name: str) -> typing.Any:
+                if blank_paths and module.startswith("pathlib") and "Path" in name:
+                    return lambda *a, **k: "<path>"
+                return super().find_class(module, name)
+
+        class P(pickle.Pickler):
+            def reducer_override(self, o: typing.Any) -> typing.Any:
+                if type(o).__name__ == "MemoizationOperator" and hasattr(o, "_child"):
+                    return (type(o), (o._child,))  # pylint: disable=protected-access
+                return NotImplemented
+
+        obj = U(io.BytesIO(raw_pickle)).load()
+        buf = io.BytesIO()
+        P(buf, protocol=4).dump(obj)
+        return buf.getvalue()
+    except Exception:  # pylint: disable=broad-except
+        return None
+
+
 def classify_diff(lang: str, rel: str, a: bytes, b: bytes) -> str:
     """Returns a known-defect class only if that defect explains *all* of the difference, else 'bytes'."""
     if lang == "py" and rel.endswith(".py"):
@@ -223,6 +255,7 @@ def classify_diff(lang: str, rel: str, a: bytes, b: bytes) -> str:
         ba, bb = _BLOB.findall(ta), _BLOB.findall(tb)
         if ba and len(ba) == len(bb) and _BLOB.sub(r"\1<blob>\3", ta) == _BLOB.sub(r"\1<blob>\3", tb):
             # the text outside the _MODEL_ constant is identical; now look inside the constant
+            classes = set()  # type: typing.Set[str]
             for (_, xa, _), (_, xb, _) in zip(ba, bb):
                 if xa == xb:
                     continue
@@ -236,9 +269,20 @@ def classify_diff(lang: str, rel: str, a: bytes, b: bytes) -> str:
                 except Exception:  # pylint: disable=broad-except
                     return "py-model-blob"
                 na, nb = _neutral_model(pa), _neutral_model(pb)
-                if na is None or nb is None or na != nb:
-                    return "py-model-pickle"
-            return "py-model-embeds-absolute-source-path"
+                if na is not None and na == nb:
+                    classes.add("py-model-embeds-absolute-source-path")
+                    continue
+                ca, cb = _model_without_caches(pa, False), _model_without_caches(pb, False)
+                if ca is not None and ca == cb:
+                    classes.add("py-model-pickles-pydsdl-memoization-caches")
+                    continue
+                ca, cb = _model_without_caches(pa, True), _model_without_caches(pb, True)
+                if ca is not None and ca == cb:
+                    classes.add("py-model-embeds-absolute-source-path")
+                    classes.add("py-model-pickles-pydsdl-memoization-caches")
+                    continue
+                return "py-model-pickle"
+            return "+".join(sorted(classes)) if classes else "bytes"
     return "bytes"
 
 
@@ -316,7 +360,28 @@ def run_case(case: dict, ctx: dict) -> dict:
             cwd_rel=delta.get("cwd", "cwd"),
             tpl_rel=delta.get("tpl_location", "tpl"),
         )
-        dsdlgen.materialize_files(files, roots, world.in_dir)
+        if delta.get("in_creation_order"):
+            order = sorted(files, reverse=True) if delta["in_creation_order"] == "reverse" else Rng("creation-order", len(files)).shuffle(sorted(files))
+            # (decoy files are created and removed in between so that inode numbers do not simply follow the names)
+            for ci, rel in enumerate(order):
+                decoy = os.path.join(sandbox, "decoy-%d" % ci)
+                open(decoy, "w").close()
+                dsdlgen.materialize_files({rel: files[rel]}, roots, world.in_dir)
+                if ci % 2:
+                    os.remove(decoy)
+            for ci in range(len(order)):
+                if os.path.exists(os.path.join(sandbox, "decoy-%d" % ci)):
+                    os.remove(os.path.join(sandbox, "decoy-%d" % ci))
+        else:
+            dsdlgen.materialize_files(files, roots, world.in_dir)
+        if delta.get("out_preexists"):
+            os.makedirs(world.out_dir, exist_ok=True)
+            if delta["out_preexists"] == "unrelated":
+                os.makedirs(os.path.join(world.out_dir, "zz-unrelated"), exist_ok=True)
+                with open(os.path.join(world.out_dir, "zz-unrelated", "NOTES.txt"), "w") as f:
+                    f.write("not generated\n")
+            elif delta["out_preexists"] == "empty-0700":
+                os.chmod(world.out_dir, 0o700)
         o = real_opts(opts)
         if o.get("templates"):
             usertpl.plant(world.tpl_dir, o["templates"], usertpl.builtin_copy(o["lang"]) if o["templates"] == "builtin_copy" else usertpl.SETS[o["templates"]])
@@ -415,6 +480,8 @@ def run_case(case: dict, ctx: dict) -> dict:
             return None, res
         tree = {}
         for rel in snapshot.files_of(snapshot.snapshot(world.out_dir, with_mtime=False)):
+            if rel.startswith("zz-unrelated/"):
+                continue  # (what the out_preexists dimension put there before the run; not generated)
             with open(os.path.join(world.out_dir, rel), "rb") as f:
                 tree[rel] = f.read()
         return tree, res
